@@ -19,12 +19,10 @@ RULE = ("history: random command trees (vp/gen_cmd.py, depth 2-3, aliases, flag 
         "build() twice on every generated tree.  A case is non-trivial when the history is non-empty and the final "
         "parse enters a subcommand, asks for help/version or fails; distinct = distinct case text.")
 TRUSTED = [
-    "Coq 8.16.1 kernel (coqc); no native_compute; 27 of the 36 theorems C11_* are 'Closed under the global "
-    "context'; the 9 parser-level ones (C11_parser_reads_signatures, C11_parse_normal_form, C11_parse_names_normal_form, "
-    "C11_history_independence, C11_visited_levels_normal_form, C11_history_independence_dym, C11_history_outcome, "
-    "C11_history_ids_order, C11_history_messages) use the standard-library axiom "
-    "FunctionalExtensionality.functional_extensionality_dep (to rewrite equal functions under binders: sh_parse_loop, "
-    "sh_validate) and nothing else",
+    "Coq 8.16.1 kernel (coqc); no native_compute; 55 of the 56 theorems C11_* are 'Closed under the global context'; "
+    "C11_parser_reads_signatures -- whose pinned statement is an equality of FUNCTIONS, parse_loop c' = parse_loop c -- "
+    "uses the standard-library axiom FunctionalExtensionality.functional_extensionality_dep (three extensionality steps "
+    "over the pointwise lemma C11_parser_reads_signatures_pointwise, which is closed); no other theorem depends on it",
     "extraction: ExtrOcamlBasic only, no Extract Constant; OCaml driver ocaml/reentrancy_driver.ml + common_parse/{spec,show}.ml",
     "correspondence: vp/props/c11.py generators and projection, harness/src/modes/history.rs (public API only: "
     "try_get_matches_from_mut, build, render_help, render_long_help, render_usage, clone, get_bin_name, "
@@ -41,7 +39,8 @@ ASSUMPTIONS = [
     "calls are made on the root Command value only (render_usage on a subcommand obtained through find_subcommand_mut "
     "before the root is built is a call on a different Command value and outside the property)",
     "rendered message text beyond kind / help level / names / version line / usage head is compared on the implementation "
-    "only (direct oracle); the required-arguments part of usage_name is an arbitrary function of the parent's own definition",
+    "only (direct oracle); the required-arguments part of usage_name is get_required_usage_from of the parent on the shared "
+    "requirement graph with the per-argument texts (Arg::stylized, format_group member text) as parameters",
     "whether did_you_mean_flag builds the subcommands of the failing level depends on strsim::jaro, which the shared parser "
     "model does not compute: the theorems hold for both answers (boolean parameter `fires`)",
 ]
@@ -469,10 +468,11 @@ def streams(tier, rng):
 
 
 TECHNIQUE = ("Coq proof (idempotence of the build steps, normal-form invariance of the in-place mutations for every "
-             "operation history incl. failing parses that build subcommands behind the caller's back, the parser reads "
-             "subcommands only through their signatures, history independence of the parser result, of the complete outcome "
-             "after global-value propagation and of the name-dependent message lines) + extracted-model/implementation "
-             "correspondence on operation histories")
+             "operation history incl. failing parses that build subcommands behind the caller's back and -- outside the "
+             "family of the recorded finding, modulo the BinNameBuilt marks -- explicit build() calls; the parser and the "
+             "validator read subcommands only through their signatures and never read the mark, proved pointwise without "
+             "axioms; history independence of the parser result, of the complete outcome after global-value propagation and "
+             "of the name-dependent message lines) + extracted-model/implementation correspondence on operation histories")
 LEVEL_TEXT = ("Machine-checked theorems (Coq 8.16) about a stateful model of one Command value mutated in place by "
               "try_get_matches_from_mut / build / render_help / render_long_help / render_usage / clone and by the "
               "subcommand building hidden in did_you_mean_flag: the build steps are idempotent and never re-run behind "
@@ -481,24 +481,33 @@ LEVEL_TEXT = ("Machine-checked theorems (Coq 8.16) about a stateful model of one
               "reads its subcommands only through names/aliases/flags and _build_subcommand, so the parser result, the "
               "names of every visited level and the reported error after any history equal those of the fresh definition "
               "(C11_history_independence).  Third pass: the failing parse that mutates (did_you_mean_flag builds every "
-              "subcommand of the level that rejected an unknown long flag) is folded into the parse; the mutation reaches the "
-              "failing level on the parse's own path; histories containing such parses give the fresh parser result, names, "
-              "error and the same own definition (arguments incl. inherited globals, in order) of every visited level "
-              "(C11_history_independence_dym); the recorded subcommand chain follows the touched nodes and "
-              "get_used_global_args on it is a function of the normal form, so the COMPLETE outcome after "
-              "propagate_globals, incl. the order of ids(), equals the fresh one for definitions whose root subcommand "
-              "names/aliases are distinct (C11_history_outcome; valid definitions are in the class); version line and "
-              "usage head (usage_name as _build_subcommand computes it) of every visited level are equal on reused / cloned / "
-              "fresh (C11_history_messages).  The statement about definitions built beforehand is refuted by a witness "
-              "(known finding), delimited as a boolean class of definitions (auto-generated help subcommand present); "
-              "outside it the tree-building half of build() preserves the normal form "
-              "(C11_build_tree_preserves_normal_form_partial).  The model is tied to clap_builder by running the extracted model and the real crate on "
-              "the same generated histories on every check (results and the observable names / argument ids of every node "
-              "after every step), and an independent python oracle compares the reused, fresh, cloned, pre-built and "
-              "by-value results and rendered messages of the real crate.")
-LEVEL_NOTE = ("36 theorems: 27 closed under the global context, 9 use functional_extensionality_dep (removing it needs a "
-              "lock-step traversal of parse_loop and of the validator: not done).  Trusted: Coq kernel, "
-              "extraction, OCaml driver, Rust harness, generators, the shared parser model.  Differential only: rendered "
-              "message text beyond version line / usage head, the _build_bin_names_internal half of build() and build() on "
-              "definitions with a help subcommand, whether did_you_mean builds (jaro; both answers covered by the theorems).  Known finding: after "
-              "build() `help help <sub>` is DisplayHelp instead of InvalidSubcommand.")
+              "subcommand of the level that rejected an unknown long flag) is folded into the parse; histories containing "
+              "such parses give the fresh parser result, names, error and the same own definition of every visited level "
+              "(C11_history_independence_dym); the COMPLETE outcome after propagate_globals, incl. the order of ids(), "
+              "equals the fresh one for definitions whose root subcommand names/aliases are distinct (C11_history_outcome); "
+              "version line and usage head of every visited level are equal on reused / cloned / fresh "
+              "(C11_history_messages; with the real required-arguments part of usage_name, get_required_usage_from of the parent: "
+              "C11_history_messages_usage_name).  Fourth pass: (a) all of these are now closed under the global context: the "
+              "congruence of parse_loop, short_loop, parse_short_arg and of the 15 validator functions is proved POINTWISE "
+              "(bodies restated with the subcommand-reading calls as parameters, tied to the model by reflexivity, lock-step "
+              "tactic), also for arbitrary BinNameBuilt marks (C11_parser_reads_signatures_pointwise, "
+              "C11_validator_congruence); (b) histories containing build(): _build_bin_names_internal is absorbed by the "
+              "normal form modulo the marks incl. display-name consistency (C11_build_bin_names_normal_form), the parser "
+              "never reads the mark (C11_parse_normal_form_modulo_marks), the family of the recorded finding is made exact as "
+              "a function of the normal form -- some node of the lazily built tree gets an auto-generated help subcommand "
+              "(help_family / quiet_tree), an invariant of every history (C11_family_invariant) -- and OUTSIDE it every "
+              "finite history of parses (failing, mutating), renders, clones and build() calls leaves the fresh parser "
+              "result, visited names and error (C11_history_independence_build) and the fresh version line / usage head of every "
+              "visited level (C11_history_messages_build); the witness of the finding lies inside the "
+              "family and is refuted there (C11_finding_witness_in_family).  The model is tied to clap_builder by running "
+              "the extracted model and the real crate on the same generated histories on every check (results and the "
+              "observable names / argument ids of every node after every step), and an independent python oracle compares "
+              "the reused, fresh, cloned, pre-built and by-value results and rendered messages of the real crate.")
+LEVEL_NOTE = ("56 theorems: 55 closed under the global context; C11_parser_reads_signatures (an equality of functions) keeps "
+              "functional_extensionality_dep, nothing depends on it.  Trusted: Coq kernel, extraction, OCaml driver, Rust "
+              "harness, generators, the shared parser model.  Differential only: rendered message text beyond version line / "
+              "usage head (the required-arguments part `mid` of usage_name is modelled on the shared requirement graph with the "
+              "per-argument texts as parameters, C11_history_messages_usage_name; not tied by a stream of its own), the complete outcome after propagate_globals for histories WITH build() (parser result / names / "
+              "error / version line / usage head are proved outside the family: C11_history_independence_build, C11_history_messages_build), build() inside the family (the finding), whether did_you_mean builds "
+              "(jaro; both answers covered by the theorems).  Known finding: after build() `help help <sub>` is DisplayHelp "
+              "instead of InvalidSubcommand.")
